@@ -33,10 +33,10 @@ Notation write iso := (write_pattern overflow_checks call_function transform for
 (* "removing the marks gives the isolation-off text exactly" — and the same errors and the same
    function invocations; both runs end the same way (Done / same Panic / OutOfFuel), for any fuel *)
 Theorem C09_strip :
-  forall fuel p c,
+  forall fuel top p c,
     cache_ok rules c ->
     (forall q, In q (bundle_patterns (Bundle m true)) -> ok_pattern q = true) -> ok_pattern p = true ->
-    match write true fuel p c, write false fuel p c with
+    match write true fuel top p c, write false fuel top p c with
     | Done (o_on, sc_on), Done (o_off, sc_off) =>
         strip o_on = o_off /\ sc_errors sc_on = sc_errors sc_off /\ sc_calls sc_on = sc_calls sc_off
     | Panic a, Panic b => a = b
@@ -44,16 +44,16 @@ Theorem C09_strip :
     | _, _ => False
     end.
 Proof.
-  intros fuel p c Hc Hb Hp. unfold write_pattern.
+  intros fuel top p c Hc Hb Hp. unfold write_pattern.
   destruct (sim_all overflow_checks call_function transform formatter rules custom_as_string
               unescape_write unescape_to_string f64_from_str m true false args (or_intror Hb) fuel) as (Hpw & _).
-  specialize (Hpw p (scope_new c) (scope_new c) (Rs_refl rules (scope_new c) Hc) (or_intror Hp)).
+  specialize (Hpw top p (scope_new c) (scope_new c) (Rs_refl rules (scope_new c) Hc) (or_intror Hp)).
   unfold b1, b2 in Hpw.
   pose proof (out_all overflow_checks call_function transform formatter rules custom_as_string
                 unescape_write unescape_to_string f64_from_str (Bundle m false) args fuel) as (Bpw & _).
-  specialize (Bpw p (scope_new c)).
-  destruct (pattern_write _ _ _ _ _ _ _ _ _ (Bundle m true) args fuel p (scope_new c)) as [[o1 s1]|t1|],
-           (pattern_write _ _ _ _ _ _ _ _ _ (Bundle m false) args fuel p (scope_new c)) as [[o2 s2]|t2|];
+  specialize (Bpw top p (scope_new c)).
+  destruct (pattern_write _ _ _ _ _ _ _ _ _ (Bundle m true) args fuel top p (scope_new c)) as [[o1 s1]|t1|],
+           (pattern_write _ _ _ _ _ _ _ _ _ (Bundle m false) args fuel top p (scope_new c)) as [[o2 s2]|t2|];
     unfold RR, rel_out in Hpw; cbn [fst snd] in Hpw; try tauto.
   destruct Hpw as [[Hs _] HR]. destruct (Rs_fields rules _ _ HR) as (_ & _ & _ & _ & Ee & Ec).
   destruct (Bpw o2 s2 eq_refl) as [_ Hno]. rewrite Hs, (Hno eq_refl). auto.
@@ -61,12 +61,12 @@ Qed.
 
 (* "Marks are balanced and properly nested": the tokens form a Dyck word over TFSI/TPDI *)
 Theorem C09_balanced :
-  forall iso fuel p c o sc, write iso fuel p c = Done (o, sc) -> balanced o.
+  forall iso fuel top p c o sc, write iso fuel top p c = Done (o, sc) -> balanced o.
 Proof.
-  intros iso fuel p c o sc H.
+  intros iso fuel top p c o sc H.
   pose proof (out_all overflow_checks call_function transform formatter rules custom_as_string
                 unescape_write unescape_to_string f64_from_str (Bundle m iso) args fuel) as (Bpw & _).
-  apply (Bpw p (scope_new c) o sc H).
+  apply (Bpw top p (scope_new c) o sc H).
 Qed.
 
 (* "each pair wraps exactly one interpolated value of a multi-element pattern": the output of
@@ -76,36 +76,36 @@ Qed.
    message/term reference or string literal (`loop_out`, ResolverIso.v).  `lo_stop` = the loop ended
    (no more elements, or the dirty flag was set). *)
 Theorem C09_one_value :
-  forall iso f p sc o sc',
+  forall iso f k p sc o sc',
     pattern_write overflow_checks call_function transform formatter rules custom_as_string
-      unescape_write unescape_to_string f64_from_str (Bundle m iso) args (S f) p sc = Done (o, sc') ->
+      unescape_write unescape_to_string f64_from_str (Bundle m iso) args (S f) k p sc = Done (o, sc') ->
     loop_out overflow_checks call_function transform formatter rules custom_as_string
-      unescape_write unescape_to_string f64_from_str (Bundle m iso) args f p
+      unescape_write unescape_to_string f64_from_str (Bundle m iso) args f k p
       (length (pattern_elements p)) (pattern_elements p) o.
 Proof.
-  intros iso f p sc o sc' H.
+  intros iso f k p sc o sc' H.
   pose proof (out_all overflow_checks call_function transform formatter rules custom_as_string
                 unescape_write unescape_to_string f64_from_str (Bundle m iso) args f) as (_ & _ & _ & Bmt & _).
   eapply (pattern_loop_out overflow_checks call_function transform formatter rules custom_as_string
-            unescape_write unescape_to_string f64_from_str (Bundle m iso) args f p _ Bmt). exact H.
+            unescape_write unescape_to_string f64_from_str (Bundle m iso) args f k p _ Bmt). exact H.
 Qed.
 
 (* "patterns with a single element get none": a one-element pattern writes its text, or the value
    of its placeable, with no mark of its own *)
 Theorem C09_single :
-  forall iso f x sc o sc',
+  forall iso f k x sc o sc',
     pattern_write overflow_checks call_function transform formatter rules custom_as_string
-      unescape_write unescape_to_string f64_from_str (Bundle m iso) args (S f) (Pattern [x]) sc = Done (o, sc') ->
+      unescape_write unescape_to_string f64_from_str (Bundle m iso) args (S f) k (Pattern [x]) sc = Done (o, sc') ->
     o = [] \/
     match x with
     | TextElement value => o = [Txt (apply_transform transform value)]
     | PlaceableElement e =>
         exists sc0 sc1,
           maybe_track overflow_checks call_function transform formatter rules custom_as_string
-            unescape_write unescape_to_string f64_from_str (Bundle m iso) args f (Pattern [x]) e sc0 = Done (o, sc1)
+            unescape_write unescape_to_string f64_from_str (Bundle m iso) args f k (Pattern [x]) e sc0 = Done (o, sc1)
     end.
 Proof.
-  intros iso f x sc o sc' H. apply C09_one_value in H. cbn [pattern_elements length] in H.
+  intros iso f k x sc o sc' H. apply C09_one_value in H. cbn [pattern_elements length] in H.
   inversion H as [| value rest o' Hr | e rest v o' sc0 sc1 Hv Hb Hr]; subst; [left; reflexivity | |].
   - right. inversion Hr; subst. reflexivity.
   - right. inversion Hr; subst. unfold needs_isolation, wrap. cbn [Nat.ltb Nat.leb].
@@ -120,7 +120,7 @@ Definition ex_rules (_ : ntype) (_ : operands) : pcat := OTHER.
 Definition ex_id (s : bytes) : bytes := s.
 Definition ex_write (m : list (bytes * bentry)) (iso : bool) (args : option fargs) (p : pattern) :=
   match write_pattern true ex_call None None ex_rules ex_id ex_id ex_id f64_from_str_exact (Bundle m iso) args
-          (fuel_of (Bundle m iso) p) p [] with
+          (fuel_of (Bundle m iso) p) None p [] with
   | Done (o, sc) => Some (o, sc_errors sc)
   | _ => None
   end.
